@@ -143,9 +143,12 @@ def explained_by_trimmed_source(cfg, member, raw, sched, life, got_c, got_r, hcf
     keep = list(raw[:k])
     if htf:  # what a default manager with the Hexital-level settings retains, in raw (unconverted) form
         keep = RC.collapse(keep, A.tf_seconds(htf))
+        real = {c[5] for c in keep}
         if hfill:
             keep = RC.fill(keep, A.tf_seconds(htf))
-    keep = RC.trim(keep, life * 60)
+        keep = [c for c in RC.trim(keep, life * 60) if c[5] in real]  # gap-fill candles are not handed on to a new manager
+    else:
+        keep = RC.trim(keep, life * 60)
     try:
         tw = run_twin(cfg, member, keep + list(raw[k:]), "ctor" if kind == "ctor" else (kind, len(keep)))
     except Exception:
@@ -225,7 +228,10 @@ def explore(item):
             hits = 0
             for word in A.words("UD", n):
                 w = ("UDJUDJUDJU" + word) if is_pat else word
-                for gk in (("reg",) if tier == "quick" else ("reg", "mix")):
+                gks = ("reg",) if tier == "quick" else ("reg", "mix")
+                if hcfg[1] and (hcfg[0] or mtf) and not is_pat:
+                    gks = gks + ("gappy", "mix")[: (1 if tier == "quick" else 2)]  # fill only matters when there are gaps
+                for gk in dict.fromkeys(gks):
                     raw = raw_stream(w, "+", A.regular_gaps(gk, len(w), 120), "T2")
                     for sched in schedules(len(w), tier):
                         if is_pat and sched != "ctor" and sched[0] != "add" and len(sched) > 4:
